@@ -1,5 +1,7 @@
-(* Proofs/RenderParams.v — the parameters MPRenderer reads from the generated default tree after a time window
-   was assigned at its top level (side condition on Gen/Tables_C19.v, by computation) *)
+(* Proofs/RenderParams.v — the parameters MPRenderer reads from the generated tree of MPDrawParams() after the
+   setting of the property statement was assigned: a time window at the top level, shapes on, icons / extra
+   occupancies / history off, no id filter.  Side condition on Gen/Tables_C19.v, by computation; it depends on
+   which groups and fields the source declares, not on their default values. *)
 From Coq Require Import ZArith String List Bool.
 Import ListNotations.
 From CR Require Import Model.DrawParams Model.RenderSel Model.RenderParams Gen.Tables_C19.
@@ -7,17 +9,29 @@ Open Scope string_scope.
 
 Definition with_window (tb te : Z) (n : node) : node := set "time_end" (VZ te) (set "time_begin" (VZ tb) n).
 
-(* the defaults of the source are: shapes on; icons, extra occupancies, history off; no id filter *)
-Lemma default_rparams : forall tb te,
-  exists hs hz,
-  rparams_of (with_window tb te mp_default) =
-  Some (mkR (mkD tb te true false false false hs hz) tb (mkP tb te true false) tb None None).
-Proof. intros tb te. eexists. eexists. vm_compute. reflexivity. Qed.
+Definition plain_ops : list op :=
+  [ mkOp ["dynamic_obstacle"] "draw_shape" (VB true);
+    mkOp ["dynamic_obstacle"] "draw_icon" (VB false);
+    mkOp ["dynamic_obstacle"; "occupancy"] "draw_occupancies" (VB false);
+    mkOp ["dynamic_obstacle"; "history"] "draw_history" (VB false);
+    mkOp ["phantom_obstacle"] "draw_shape" (VB true);
+    mkOp ["phantom_obstacle"; "occupancy"] "draw_occupancies" (VB false);
+    mkOp ["lanelet_network"] "draw_ids" VNone;
+    mkOp ["planning_problem_set"] "draw_ids" VNone ].
 
-Lemma default_rparams_plain : forall tb te r,
-  rparams_of (with_window tb te mp_default) = Some r -> plain r = true /\ window r tb te /\
-  r_lanelet_ids r = None /\ r_pp_ids r = None.
+Definition plain_setting (tb te : Z) (n : node) : option node := run plain_ops (with_window tb te n).
+
+Lemma plain_setting_rparams : forall tb te,
+  exists t hs hz,
+  plain_setting tb te mp_default = Some t /\
+  rparams_of t = Some (mkR (mkD tb te true false false false hs hz) tb (mkP tb te true false) tb None None).
+Proof. intros tb te. eexists. eexists. eexists. split; vm_compute; reflexivity. Qed.
+
+Lemma plain_setting_plain : forall tb te t r,
+  plain_setting tb te mp_default = Some t -> rparams_of t = Some r ->
+  plain r = true /\ window r tb te /\ r_lanelet_ids r = None /\ r_pp_ids r = None.
 Proof.
-  intros tb te r H. destruct (default_rparams tb te) as [hs [hz E]]. rewrite E in H. inversion H. subst r.
+  intros tb te t r Ht Hr. destruct (plain_setting_rparams tb te) as [t' [hs [hz [E1 E2]]]].
+  rewrite E1 in Ht. inversion Ht. subst t'. rewrite E2 in Hr. inversion Hr. subst r.
   unfold plain, window. simpl. repeat split; reflexivity.
 Qed.
